@@ -313,6 +313,13 @@ def true_ratio(c, wscales, ch):
     return Fraction(float(np.float32(c["ifm_scale"]))) * Fraction(float(np.float32(w))) / Fraction(float(np.float32(c["ofm_scale"])))
 
 
+def add_bad(st, finding):
+    """finding = (key, detail, what): a failing input of the property; distinct keys only, at most six"""
+    bad = st.setdefault("bad", [])
+    if len(bad) < 6 and all(b[0] != finding[0] for b in bad):
+        bad.append(finding)
+
+
 def is_valid_request(c, offs):
     """inputs on which the property's oracles apply: what every caller builds (strictly increasing closed slices
     from 0 to the OFM depth, interior boundaries multiples of the core count, block depth at least the core count)"""
@@ -605,15 +612,15 @@ def function_level(rng, tier, st):
                                   tuple(c["dil"]), c["wshape"][-1] % 16 == 0))
             why = (layout_oracle(c, c["offs"], tw) or scale_oracle(c, c["offs"], tw, wsc, bv)
                    or weight_oracle(c, c["offs"], tw, wv))
-            if why and st["first_bad"] is None:
-                st["first_bad"] = (dict(oracle=why.split(" of (")[0][:50], kind=c["kind"], ncores=HW[c["accel"]][0]),
-                                   dict(case=c, reason=why), "encode_weight_and_scale_tensor: " + why)
+            if why:
+                add_bad(st, (dict(oracle=why.split(" of (")[0][:50], kind=c["kind"], ncores=HW[c["accel"]][0]),
+                                   dict(case=c, reason=why), "encode_weight_and_scale_tensor: " + why))
         elif status == "err" and valid and all(-(1 << 39) <= b < (1 << 39) and 0 <= m < (1 << 32) and 0 <= s < 64
                                                for b, m, s in expected_channel_records(c, wsc, bv)[0]):
             # a well-formed request whose records all fit the documented field widths was rejected
-            if st["first_bad"] is None:
-                st["first_bad"] = (dict(oracle="rejected", kind=c["kind"], ncores=HW[c["accel"]][0]), dict(case=c, reason=r),
-                                   "encode_weight_and_scale_tensor raised %s on a well-formed request" % r)
+            if True:
+                add_bad(st, (dict(oracle="rejected", kind=c["kind"], ncores=HW[c["accel"]][0]), dict(case=c, reason=r),
+                                   "encode_weight_and_scale_tensor raised %s on a well-formed request" % r))
         if len(st["samples"]) < 3 and status == "ok" and valid and len(c["offs"]) > 2:
             st["samples"].append(dict(case={k: c[k] for k in ("kind", "accel", "wshape", "ifm_dtype", "bd", "offs")},
                                       ranges=ranges_of(tw)[:6], double_buffer_sizes=list(tw.double_buffer_sizes), buffer_len=len(tw.buffer)))
@@ -659,8 +666,8 @@ def bias_level(rng, tier, st):
             why = "out-of-range argument accepted (wrapped into the record)"
         elif out[0] == 1 and (len(out) != 11 or parse_record(out[1:]) != (b, s, h, 0)):
             why = "record %r does not read back as (bias, scale, shift) = %r" % (out[1:], (b, s, h))
-        if why and st["first_bad"] is None:
-            st["first_bad"] = (dict(oracle="encode_bias", why=why[:40]), dict(bias=b, scale=s, shift=h, got=out), "encode_bias(%d, %d, %d): %s" % (b, s, h, why))
+        if why:
+            add_bad(st, (dict(oracle="encode_bias", why=why[:40]), dict(bias=b, scale=s, shift=h, got=out), "encode_bias(%d, %d, %d): %s" % (b, s, h, why)))
         if inr:
             st["nontrivial"].add(("bias", b.bit_length() // 8, b < 0, s.bit_length() // 8, h // 16))
     if st["okx"]:
@@ -763,8 +770,8 @@ def addr_level(rng, tier, st):
                         why = "weights of core %d slice %d outside the %s of %d bytes" % (r_[0], d, "double buffer" if buffered else "tensor", size)
                     if ts is None and not (base <= b_.address and b_.address + b_.length <= base + size):
                         why = "scales of core %d slice %d outside the %s of %d bytes" % (r_[0], d, "double buffer" if buffered else "tensor", size)
-            if why and st["first_bad"] is None:
-                st["first_bad"] = (dict(oracle="create_weights", buffered=buffered, ncores=nc), dict(case=c, slice=d, reason=why), "create_weights: " + why)
+            if why:
+                add_bad(st, (dict(oracle="create_weights", buffered=buffered, ncores=nc), dict(case=c, slice=d, reason=why), "create_weights: " + why))
             st["nontrivial"].add(("cw", nc, buffered, ts is not None, len(c["offs"]) - 1 > 1, i % 2))
             # DMA of the slice into a buffer
             out = Tensor([1, 1, 1, int(tw.double_buffer_sizes[i % 2])], DataType.uint8, "dbuf")
@@ -786,8 +793,8 @@ def addr_level(rng, tier, st):
                     whyd = "DMA of slice %d reads (%d, %d), the slice is (%d, %d)" % (d, dop.src.address - int(tw.address), dop.src.length, mine[0][2], size_i)
                 elif dop.dest.length > int(tw.double_buffer_sizes[i % 2]) or dop.dest.address != int(out.address):
                     whyd = "DMA of slice %d writes %d bytes into a double buffer of %d" % (d, dop.dest.length, tw.double_buffer_sizes[i % 2])
-                if whyd and st["first_bad"] is None:
-                    st["first_bad"] = (dict(oracle="create_dma_op", ncores=nc), dict(case=c, slice=d, reason=whyd), "create_dma_op: " + whyd)
+                if whyd:
+                    add_bad(st, (dict(oracle="create_dma_op", ncores=nc), dict(case=c, slice=d, reason=whyd), "create_dma_op: " + whyd))
     if st["okx"] and margs_w:
         for (c, d, got), out in zip(meta_w, models.run("create_weights", margs_w, exe_name=EXE)):
             st["model_cases"] += 1
@@ -963,9 +970,9 @@ def history_level(rng, tier, st):
                            stale_weight_bytes=[len(w) for _, w in eff.values()], fresh_weight_bytes=[len(w) for _, w in eff_sections(fr).values()])
                 if keyf or not diff:
                     # the real key function lost a field (or a hit differs although nothing differs): directly a failing input
-                    if st["first_bad"] is None:
-                        st["first_bad"] = (dict(defect="weight_cache_key_omits", field=field), rec,
-                                           "cached encoding reused although %s differs: response %d is not what a fresh encoding returns" % (field, i))
+                    if True:
+                        add_bad(st, (dict(defect="weight_cache_key_omits", field=field), rec,
+                                           "cached encoding reused although %s differs: response %d is not what a fresh encoding returns" % (field, i)))
                 else:
                     st["stale_fn"].setdefault(field, rec)
             elif kind != 1:
@@ -1147,12 +1154,44 @@ def pipeline_level(st):
 
 # ---------------------------------------------------------------------------------------------------------------------
 # D2: weight / scale register ranges and weight DMAs of real compilations vs the captured (core, slice) ranges
+def c08_corpus_jobs():
+    """networks kept from findings of this check (built here, compiled through the shared cached runner)"""
+    import numpy as np
+    sys.path.insert(0, os.path.join(vlib.ROOT, "tools"))
+    from netgen import Net, PADDING
+    import hashlib
+    out_dir = os.path.join(vlib.BUILD, "c08_pipeline")
+    os.makedirs(out_dir, exist_ok=True)
+    # one 3x3 convolution 32 -> 112 channels whose odd groups of 16 output channels compress badly and whose even groups
+    # are zero: with a single weight buffer the odd depth slices are larger than double_buffer_sizes[0]
+    ic, oc, k, hw = 32, 112, 3, 12
+    net = Net("c08_single_buffer")
+    x = net.input([1, hw, hw, ic], "int8", 0.05, 0)
+    wd = np.random.RandomState(1).randint(-127, 128, [oc, k, k, ic])
+    for ch in range(oc):
+        if (ch // 16) % 2 == 0:
+            wd[ch] = 0
+    wt = net.tensor([oc, k, k, ic], "int8", 0.01, 0, wd)
+    b = net.tensor([oc], "int32", 0.0005, 0, np.arange(oc))
+    y = net.tensor([1, hw, hw, oc], "int8", 0.1, 0)
+    net.op("CONV_2D", [x, wt, b], [y], dict(Padding=PADDING["SAME"], StrideW=1, StrideH=1, DilationWFactor=1, DilationHFactor=1,
+                                            FusedActivationFunction=0))
+    net.output(y)
+    data = net.build()
+    path = os.path.join(out_dir, "c08_single_buffer.tflite")
+    if not os.path.exists(path) or open(path, "rb").read() != bytes(data):
+        open(path, "wb").write(data)
+    sha = hashlib.sha256(bytes(data)).hexdigest()[:16]
+    return [{"tflite": path, "sha": sha, "family": "c08corpus", "seed": "c08_single_buffer", "capture": True,
+             "args": ["--accelerator-config", "ethos-u55-128", "--arena-cache-size", "25600"]}]
+
+
 def d2_level(tier, st):
     import artefacts
     import compiles
     from ethosu import mlw_codec
     n = 64 if tier == "quick" else 1600
-    jobs = compiles.corpus_jobs() + compiles.plan(FAMS, n, vlib.seed(), tag="d2", capture=True)
+    jobs = c08_corpus_jobs() + compiles.corpus_jobs() + compiles.plan(FAMS, n, vlib.seed(), tag="d2", capture=True)
     results = compiles.run_all(jobs, timeout=900)
     cw_args, cw_meta, dma_args, dma_meta = [], [], [], []
     d2 = dict(compilations=0, conv_like_ops=0, weight_dmas=0, scale_records=0, weight_sections_decoded=0, buffered_ops=0, two_core_ops=0,
@@ -1246,7 +1285,21 @@ def d2_level(tier, st):
                         why = "weight DMA reads (%d, %d), slice %d of the tensor is (%d, %d)" % (src["address"], src["length"], d,
                                                                                                  cmd["in"]["address"] + (mine[0][2] if mine else 0), size)
                     elif dst["length"] > cmd["out"]["storage_size"]:
-                        why = "weight DMA of slice %d writes %d bytes into a buffer of %d bytes" % (d, dst["length"], cmd["out"]["storage_size"])
+                        # its own key: the buffer tensor is smaller than a slice that occupies it
+                        slices = sorted(set(rr[1] for rr in rs))
+                        add_bad(st, (dict(defect="weight_buffer_smaller_than_slice", slice_parity=slices.index(d) % 2,
+                                          buffers=len(set(o2["cmd"]["out"]["name"] for o2 in stream["ops"]
+                                                          if o2.get("cmd") and o2["cmd"].get("kind") == "dma" and o2["cmd"].get("encoded_ranges")
+                                                          and o2["cmd"]["in"]["name"] == cmd["in"]["name"]))),
+                                     dict(where, args=r["job"]["args"], model=r["job"].get("tflite") or r["job"].get("family"),
+                                          slice_start=d, slice_index=slices.index(d), dma_bytes=dst["length"],
+                                          buffer_tensor=cmd["out"]["name"], buffer_bytes=cmd["out"]["storage_size"],
+                                          slice_sizes={str(x): sum(rr[4] + rr[5] for rr in rs if rr[1] == x) for x in slices},
+                                          replay_cmd="cd /verif && /venv/bin/python tools/vela_worker.py %s/job.json" % r["job"]["out_dir"]),
+                                     "compiled model %s (%s): the weight DMA of depth slice %d (index %d) writes %d bytes into the weight buffer "
+                                     "tensor %s of %d bytes -- a single buffer is sized double_buffer_sizes[0], which bounds even slices only" % (
+                                         r.get("net_name"), " ".join(r["job"]["args"]), d, slices.index(d), dst["length"], cmd["out"]["name"],
+                                         cmd["out"]["storage_size"])))
                     elif src["address"] % 16 or src["length"] % 16 or dst["address"] % 16:
                         why = "weight DMA range not 16-byte aligned"
                 if why and bad is None:
@@ -1263,11 +1316,11 @@ def d2_level(tier, st):
                 if out != got and bad is None:
                     bad = (where, "create_dma_op on the captured ranges: proved model gives %r, the DMA is %r" % (out, got), None)
     st["d2"] = d2
-    if bad and st["first_bad"] is None:
+    if bad:
         where, why, r = bad
-        st["first_bad"] = (dict(where, oracle="compiled"), dict(where, reason=why, args=r["job"]["args"] if r else None,
+        add_bad(st, (dict(where, oracle="compiled"), dict(where, reason=why, args=r["job"]["args"] if r else None,
                                                                 replay_cmd=("cd /verif && /venv/bin/python tools/vela_worker.py %s/job.json" % r["job"]["out_dir"]) if r else None),
-                           "compiled model %s: %s" % (where["net"], why))
+                     "compiled model %s: %s" % (where["net"], why)))
 
 
 def run(tier):
@@ -1284,7 +1337,7 @@ def run(tier):
         "quantise_scale / reduced_quantise_scale are inputs of the model (C09's subject); the oracle recomputes them exactly"])
     okx, xlog = vlib.build_extraction(EXE)
     rng = random.Random(vlib.seed())
-    st = dict(evals=0, dist=collections.Counter(), model_diff=[], valid=0, nontrivial=set(), first_bad=None, samples=[], okx=okx, model_cases=0,
+    st = dict(evals=0, dist=collections.Counter(), model_diff=[], valid=0, nontrivial=set(), bad=[], samples=[], okx=okx, model_cases=0,
               hist_kinds=collections.Counter(), stale_fn={}, d2={})
     timing = {}
     crashed = None
@@ -1349,18 +1402,19 @@ def run(tier):
     if crashed:
         res.notes.append("part %s raised: %s" % crashed)
 
-    if st["first_bad"]:
-        k, d, w = st["first_bad"]
+    for k, d, w in st["bad"]:
         res.violation(k, d, w)
     for f in confirmed:
         w = wit[f]
         res.violation({"defect": "weight_cache_key_omits", "field": f},
-                      dict(theorem="cache_reuse_refuted / key_omits (coq/props/C08.v)", function_level=w, how_reached=PIPELINE_ROUTE[f]),
+                      dict(theorem="cache_reuse_refuted / key_omits (coq/props/C08.v)", function_level=w, how_reached=PIPELINE_ROUTE[f],
+                           replay_cmd="cd /verif && /venv/bin/python tools/checks/c08.py --pipeline %s %s build/c08_pipeline/%s" % (
+                               pipeline_scenarios()[f][0], ",".join(pipeline_scenarios()[f][1]), pipeline_scenarios()[f][0])),
                       "CompressedWeightCache reuses an encoding although %s differs (key omits it): %s; the stale tensor reaches the command stream "
                       "(returned sections %s bytes, a fresh encoding %s)" % (
                           f, PIPELINE_ROUTE[f], w["compiler_level"]["first_stale_call"].get("returned_sections"),
                           w["compiler_level"]["first_stale_call"].get("fresh_sections")))
-    if not st["first_bad"]:
+    if not st["bad"]:
         if not b["ok"]:
             vlib.report_broken_build(res, b, None)
         elif st["model_diff"] or not okx or crashed:
